@@ -170,6 +170,7 @@ class RegisterDatetime:
 class SingleTypeSetter:
     """C08: unions are de-duplicated by hash string, so a node whose child changes must forget its cached hash string"""
     modifies = ["_type", "_hash"]
+    modifies_self = ["_type", "_hash"]
 
     def ensures(self, t):
         return {"child_replaced": self._type is t, "cached_hash_dropped": is_none(self._hash)}
@@ -187,6 +188,7 @@ class ComplexTypeSetter:
 class SingleTypeReplace:
     sorts = {"result": "any"}
     modifies = ["_type", "_hash"]
+    modifies_self = ["_type", "_hash"]
 
     def ensures(self, t, kwargs, result):
         return {"in_place": result is self and self._type is t and is_none(self._hash)}
@@ -202,6 +204,7 @@ class ModelPtrReplace:
     """C05 'every reference points to a registered model': retargeting moves the pointer from the old model's pointer set to the new one's"""
     sorts = {"t": "obj:ModelMeta", "pointers": "set", "result": "any"}
     modifies = ["_type", "_hash", "pointers"]
+    modifies_self = ["_type", "_hash"]
 
     def requires(self, t, kwargs):
         return {"registered_at_target": self in attr_set(self._type, "pointers"), "model_target": ty_is(self._type, ModelMeta)}
@@ -214,6 +217,8 @@ class ModelPtrReplace:
             "in_new_set": self in attr_set(t, "pointers"),
             "out_of_old_set": implies(not (old(self._type) is t), not (self in attr_set(old(self._type), "pointers"))),
             "other_members_kept": forall(old(attr_set(t, "pointers")), lambda p: p in attr_set(t, "pointers")),
+            "others_stay_in_old_set": forall(old(attr_set(self._type, "pointers")), lambda p: p is self or p in attr_set(old(self._type), "pointers")),
+            "only_two_pointer_sets_change": unchanged_except("pointers", old(self._type), t),
         }
 
 
@@ -221,6 +226,7 @@ class ModelPtrReplace:
 class ModelPtrReplaceParent:
     sorts = {"t": "obj:ModelMeta", "child_pointers": "set", "result": "any", "parent": "obj:ModelMeta"}
     modifies = ["parent", "_hash", "child_pointers"]
+    modifies_self = ["parent", "_hash"]
 
     def requires(self, t, kwargs):
         return {"registered_at_parent": self in attr_set(self.parent, "child_pointers")}
@@ -232,6 +238,8 @@ class ModelPtrReplaceParent:
             "in_new_set": self in attr_set(t, "child_pointers"),
             "out_of_old_set": implies(not (old(self.parent) is t), not (self in attr_set(old(self.parent), "child_pointers"))),
             "other_members_kept": forall(old(attr_set(t, "child_pointers")), lambda p: p in attr_set(t, "child_pointers")),
+            "others_stay_in_old_set": forall(old(attr_set(self.parent, "child_pointers")), lambda p: p is self or p in attr_set(old(self.parent), "child_pointers")),
+            "only_two_child_sets_change": unchanged_except("child_pointers", old(self.parent), t),
         }
 
 
